@@ -60,7 +60,56 @@ def _canonical(f):
         if isinstance(st, ast.Assign) and len(st.targets) == 1 and isinstance(st.targets[0], ast.Name) and \
                 isinstance(st.value, ast.Call) and call_name(st.value) == 'bounds_for_cache':
             m[st.targets[0].id] = 'cache_bounds'
-    return FuncView(f, rename_locals(node, m))
+    return FuncView(f, _cache_aliases(rename_locals(node, m)))
+
+
+def _cache_aliases(node):
+    """The routine with the local names of cache records spelled out: `rec = PIXEL_CACHE.setdefault(cache_id, {...})`,
+    `rec = PIXEL_CACHE[cache_id]`, `entry = PIXEL_CACHE[cache_id].get(ipix) if cache_id in PIXEL_CACHE else None` make `rec` /
+    `entry` other names of `PIXEL_CACHE[cache_id]` / `PIXEL_CACHE[cache_id][ipix]`; every later use of the name is read as the
+    record it stands for (`.get(k)` on a record as `[k]`).  Returns ``node`` itself when there is no such local."""
+    import copy
+
+    class Sub(ast.NodeTransformer):
+        """X.get(k) / CACHE.setdefault(k, d) -> X[k] for X a cache record"""
+        def visit_Call(self, c):
+            self.generic_visit(c)
+            if isinstance(c.func, ast.Attribute) and c.func.attr in ('get', 'setdefault') and c.args and not c.keywords and \
+                    unparse(c.func.value).split('[')[0] in ('PIXEL_CACHE', 'ARRAY_CACHE'):
+                if c.func.attr == 'get' and len(c.args) == 2 and not (isinstance(c.args[1], ast.Constant) and c.args[1].value is None):
+                    return c
+                return ast.copy_location(ast.Subscript(value=c.func.value, slice=c.args[0], ctx=ast.Load()), c)
+            return c
+    aliases = {}
+    stores = {}
+    for n_ in ast.walk(node):
+        if isinstance(n_, ast.Name) and isinstance(n_.ctx, (ast.Store, ast.Del)):
+            stores[n_.id] = stores.get(n_.id, 0) + 1
+    once = {st_.targets[0].id: st_.value for st_ in ast.walk(node) if isinstance(st_, ast.Assign) and len(st_.targets) == 1
+            and isinstance(st_.targets[0], ast.Name) and stores.get(st_.targets[0].id) == 1}
+    for name, value in once.items():
+        v = value
+        if isinstance(v, ast.IfExp):
+            arms = [a for a in (v.body, v.orelse) if not (isinstance(a, ast.Constant) and a.value is None)]
+            if len(arms) != 1:
+                continue
+            v = arms[0]
+        v2 = Sub().visit(copy.deepcopy(v))
+        t = unparse(v2)
+        if isinstance(v2, ast.Subscript) and t.split('[')[0] in ('PIXEL_CACHE', 'ARRAY_CACHE') and t.count('[') in (1, 2):
+            aliases[name] = v2
+    if not aliases:
+        return node
+    new = copy.deepcopy(node)
+
+    class Use(ast.NodeTransformer):
+        def visit_Name(self, n):
+            if isinstance(n.ctx, ast.Load) and n.id in aliases:
+                return ast.copy_location(copy.deepcopy(aliases[n.id]), n)
+            return n
+    new = Use().visit(new)
+    ast.fix_missing_locations(new)
+    return new
 
 
 def run(ctx):
@@ -98,16 +147,19 @@ def rule_a(ctx, ix, f):
     from .. import cond as _c
     # the two key tuples with the condition each is built under: two assignments in the arms of an if/else, or one assignment
     # of a conditional expression
-    keydefs = []
-    for st in walk_no_nested(f.node):
-        if isinstance(st, ast.Assign) and unparse(st.targets[0]) == 'current_array_hash':
-            base = _c.path_condition(f.node, st, expand=False) or ('const', True)
-            if isinstance(st.value, ast.Tuple):
-                keydefs.append((st, st.value, base))
-            elif isinstance(st.value, ast.IfExp) and isinstance(st.value.body, ast.Tuple) and isinstance(st.value.orelse, ast.Tuple):
-                t_ = _c.formula(st.value.test)
-                keydefs.append((st, st.value.body, _c.And(base, t_)))
-                keydefs.append((st, st.value.orelse, _c.And(base, _c.Not(t_))))
+    def key_definitions(name):
+        out = []
+        for st in walk_no_nested(f.node):
+            if isinstance(st, ast.Assign) and unparse(st.targets[0]) == name:
+                base = _c.path_condition(f.node, st, expand=False) or ('const', True)
+                if isinstance(st.value, ast.Tuple):
+                    out.append((st, st.value, base))
+                elif isinstance(st.value, ast.IfExp) and isinstance(st.value.body, ast.Tuple) and isinstance(st.value.orelse, ast.Tuple):
+                    t_ = _c.formula(st.value.test)
+                    out.append((st, st.value.body, _c.And(base, t_)))
+                    out.append((st, st.value.orelse, _c.And(base, _c.Not(t_))))
+        return out
+    keydefs = key_definitions('current_array_hash')
     pm = parent_map(f.node)
     if len(keydefs) != 2:
         raise AnalysisError('compute_fixed_resolution_buffer: the two array-hash definitions are not recognised')
@@ -137,36 +189,69 @@ def rule_a(ctx, ix, f):
                    detail='the %s-request cache key %s omits %s: a later request under the same cache id that differs only in %s is '
                           'answered with the array of the earlier request' % (variant, unparse(st.value), p, p), where=where(f, st.st))
     # hit test compares the stored hash with the current one and returns the stored array
-    hits = [n for n in walk_no_nested(f.node) if isinstance(n, ast.If) and "['hash']" in unparse(n.test) and 'ARRAY_CACHE' in unparse(n.test)]
-    ok = len(hits) == 1 and 'current_array_hash' in unparse(hits[0].test) and isinstance(hits[0].test, ast.Compare) and \
-        isinstance(hits[0].test.ops[0], ast.Eq) and any(isinstance(x, ast.Return) and "['array']" in unparse(x.value) for x in hits[0].body)
+    # (read off the condition under which the stored array is returned, however the tests are nested or merged)
+    HIT = _c.T("eq|ARRAY_CACHE[cache_id]['hash']|current_array_hash")
+    GIVEN = _c.Not(_c.T('is|None|cache_id'))
+    hits = [r for r in returns_of(f) if r.value is not None and 'ARRAY_CACHE' in unparse(r.value) and "['array']" in unparse(r.value).replace('"', "'")]
+    ok, guarded = len(hits) == 1, False
+    if ok:
+        pc_hit = _c.path_condition(f.node, hits[0], expand=False) or ('const', True)
+        try:
+            ok = _c.implies(pc_hit, HIT)
+            guarded = _c.implies(pc_hit, GIVEN)
+        except ValueError:
+            ok = False
     ctx.ob(R, f.construct + ' hit', 'a hit requires equality of the stored and the current key', ok,
            detail='the array cache is not consulted as `if ARRAY_CACHE[cache_id][\'hash\'] == current_array_hash: return ...[\'array\']`', where=f.where)
     if hits:
-        gs = [unparse(g.test).replace(' ', '') for g, br in guard_chain(pm, hits[0], f.node) if isinstance(g, ast.If)]
-        ctx.ob(R, f.construct + ' hit guard', 'the cache is only consulted when a cache id was given', 'cache_idisnotNone' in gs,
+        ctx.ob(R, f.construct + ' hit guard', 'the cache is only consulted when a cache id was given', guarded,
                detail='the array cache hit test is not under `if cache_id is not None`', where=where(f, hits[0]), nontrivial=False)
     stores = [st for st in walk_no_nested(f.node) if isinstance(st, ast.Assign) and unparse(st.targets[0]) == 'ARRAY_CACHE[cache_id]']
     if not stores:
         raise AnalysisError('compute_fixed_resolution_buffer: no store into ARRAY_CACHE')
+    stored_names = set()
     for st in stores:
         d = st.value
         ok = isinstance(d, ast.Dict) and {k.value for k in d.keys if isinstance(k, ast.Constant)} == {'hash', 'array'}
         vals = {k.value: unparse(v) for k, v in zip(d.keys, d.values)} if ok else {}
-        ok = ok and vals['hash'] == 'current_array_hash'
+        stored_names.add(vals.get('hash'))
+        ok = ok and vals['hash'].isidentifier()
         rets = [unparse(r.value) for r in returns_of(f) if r.value is not None and r.lineno > st.lineno]
         ok = ok and vals.get('array') in rets
-        gs = [unparse(g.test).replace(' ', '') for g, br in guard_chain(pm, st, f.node) if isinstance(g, ast.If)]
+        try:
+            given = _c.implies(_c.path_condition(f.node, st, expand=False) or ('const', True), GIVEN)
+        except ValueError:
+            given = False
         ctx.ob(R, f.construct + ' store', 'the returned array is stored under the current key, only when a cache id was given',
-               ok and 'cache_idisnotNone' in gs,
+               ok and given,
                detail='`%s` does not store the returned array together with current_array_hash under `cache_id is not None`' % norm(st),
                where=where(f, st))
-    # the stored key is the compared one with only the bounds replaced by their wildcard form
+    # the stored key is the compared one with only the bounds replaced by their wildcard form: either the compared key is
+    # patched (`key[:1] + (cache_bounds,) + key[2:]`), or a second key is built the same way from cache_bounds
     upd = [st for st in walk_no_nested(f.node) if isinstance(st, ast.Assign) and unparse(st.targets[0]) == 'current_array_hash'
            and not isinstance(st.value, ast.Tuple) and not any(st is k_.st for k_ in keys)]
-    ok = len(upd) == 1 and unparse(upd[0].value).replace(' ', '') == 'current_array_hash[:1]+(cache_bounds,)+current_array_hash[2:]'
+    ok = len(upd) == 1 and unparse(upd[0].value).replace(' ', '') == 'current_array_hash[:1]+(cache_bounds,)+current_array_hash[2:]' \
+        and stored_names == {'current_array_hash'}
+    absent = not upd
+    if not upd and len(stored_names) == 1 and stored_names != {'current_array_hash'}:
+        other = key_definitions(sorted(stored_names)[0])
+        none_ = _c.T('is|None|subset_state')
+        pairs = 0
+        for st2, tup2, pc2 in other:
+            for k_ in keys:
+                try:
+                    same = (_c.implies(pc2, none_) and _c.implies(k_.pc, none_)) or \
+                        (_c.implies(pc2, _c.Not(none_)) and _c.implies(k_.pc, _c.Not(none_)))
+                except ValueError:
+                    same = False
+                if same and len(tup2.elts) == len(k_.value.elts) and \
+                        [unparse(e_) for e_ in tup2.elts] == ['cache_bounds' if unparse(e_) == 'bounds' else unparse(e_) for e_ in k_.value.elts]:
+                    pairs += 1
+        ok = pairs == len(keys) == len(other)
+        absent = not other or not any('cache_bounds' in unparse(t_) for _, t_, _ in other)
+        upd = [o[0] for o in other]
     ctx.idiom(R, f.construct + ' wildcard', 'only the bounds slot of the key is replaced by its wildcard form before storing',
-              accepted=ok, absent=not upd,
+              accepted=ok, absent=absent,
               detail_absent='the stored key no longer replaces the bounds by their wildcard form: the cache never matches again when '
                             'slicing through a cube (or matches with stale bounds)',
               shape='; '.join(unparse(u.value) for u in upd), where=f.where)
@@ -200,10 +285,21 @@ def rule_b(ctx, ix, f):
     ok = len(ph) == 1 and _names(ph[0].value) >= {'data', 'target_data'}
     ctx.ob(R, f.construct + ' pixel hash', 'the pixel hash covers data and target_data', ok,
            detail='current_pixel_hash is %s' % (unparse(ph[0].value) if ph else None), where=f.where)
+    from .. import cond as _c
     ev = [n for n in walk_no_nested(f.node) if isinstance(n, ast.If) and 'PIXEL_CACHE' in unparse(n.test) and "['hash']" in unparse(n.test)]
-    ok = len(ev) == 1 and isinstance(ev[0].test, ast.Compare) and isinstance(ev[0].test.ops[0], ast.NotEq) and \
-        'current_pixel_hash' in unparse(ev[0].test) and \
-        any(call_name(c) in ('pop', '__delitem__', 'clear') and 'PIXEL_CACHE' in unparse(c.func) for c in calls_in(ev[0]))
+    ok = len(ev) == 1
+    if ok:
+        # the entry is dropped exactly when the stored hash differs (the tests may be nested or merged into one)
+        drops = [st_ for st_ in ast.walk(ev[0]) if isinstance(st_, ast.stmt) and not isinstance(st_, ast.If) and
+                 (any(call_name(c) in ('pop', '__delitem__', 'clear') and 'PIXEL_CACHE' in unparse(c.func) for c in calls_in(st_)) or
+                  isinstance(st_, ast.Delete) and 'PIXEL_CACHE' in unparse(st_))]
+        ok = len(drops) == 1
+        if ok:
+            try:
+                ok = _c.implies(_c.path_condition(f.node, drops[0], expand=False) or ('const', True),
+                                _c.Not(_c.T("eq|PIXEL_CACHE[cache_id]['hash']|current_pixel_hash")))
+            except ValueError:
+                ok = False
     ctx.ob(R, f.construct + ' eviction', 'a pixel-cache entry whose hash differs is evicted before use', ok,
            detail='the pixel cache is not evicted on `PIXEL_CACHE[cache_id][\'hash\'] != current_pixel_hash`: coordinates translated '
                   'for another pair of datasets are reused under the same cache id', where=f.where)
@@ -243,6 +339,19 @@ def rule_b(ctx, ix, f):
     use = [n for n in ast.walk(f.node) if isinstance(n, ast.If) and "['bounds']" in unparse(n.test)]
     ok = len(use) == 1 and 'cache_id in PIXEL_CACHE' in unparse(use[0].test) and 'ipix in PIXEL_CACHE[cache_id]' in unparse(use[0].test) \
         and ("== bounds" in unparse(use[0].test) or "bounds ==" in unparse(use[0].test))
+    if not ok and len(use) == 1:
+        # presence may be established differently (`entry = record.get(ipix)`, `entry is not None`): what the property needs is
+        # that the stored coordinates are only read when the stored bounds equal the requested ones
+        rd = [st_ for st_ in ast.walk(use[0]) if isinstance(st_, ast.Assign) and
+              any(isinstance(x, ast.Subscript) and isinstance(x.ctx, ast.Load) and "['translated_coord']" in unparse(x).replace('"', "'")
+                  for x in ast.walk(st_.value))]
+        try:
+            ok = bool(rd) and all(
+                any(a_.startswith('eq|') and "['bounds']" in a_.replace('"', "'") and 'bounds' in a_.split('|')[1:] and _c.implies(pc_, _c.T(a_))
+                    for a_ in _c.atoms(pc_))
+                for pc_ in [_c.path_condition(f.node, st_, expand=False) or ('const', True) for st_ in rd])
+        except ValueError:
+            ok = False
     ctx.ob(R, f.construct + ' use test', 'a cached axis is used only if present and its stored bounds equal the requested bounds', ok,
            detail='the per-axis cache is used under `%s`' % (unparse(use[0].test) if use else None), where=f.where)
     # the stored entry carries all four parts
@@ -256,6 +365,10 @@ def rule_b(ctx, ix, f):
         ctx.ob(R, f.construct + ' entry guard', 'the pixel cache is only written when a cache id was given', 'cache_idisnotNone' in gs,
                detail='the per-axis cache entry is written without `cache_id is not None`', where=where(f, st[0]), nontrivial=False)
         hs = [x for x in ast.walk(f.node) if isinstance(x, ast.Assign) and unparse(x.targets[0]) == 'PIXEL_CACHE[cache_id]']
+        # or created on demand: PIXEL_CACHE.setdefault(cache_id, {'hash': ...})
+        hs += [ast.Assign(targets=[c_.args[0]], value=c_.args[1]) for c_ in calls_in(f.node)
+               if call_name(c_) == 'setdefault' and unparse(c_.func) == 'PIXEL_CACHE.setdefault' and len(c_.args) == 2
+               and unparse(c_.args[0]) == 'cache_id']
         ok = len(hs) == 1 and 'current_pixel_hash' in unparse(hs[0].value)
         ctx.ob(R, f.construct + ' entry hash', 'a new pixel-cache record carries the current pixel hash', ok,
                detail='a new PIXEL_CACHE record is created as %s' % (unparse(hs[0].value) if hs else None), where=f.where)
@@ -277,7 +390,7 @@ def rule_c(ctx, ix, f):
     if len(use) == 1:
         # which arm is the cache hit: the one that reads the stored coordinates
         hit_first = any("['translated_coord']" in unparse(x) or "['invalid']" in unparse(x) for st_ in use[0].body for x in ast.walk(st_)
-                        if isinstance(x, ast.Subscript) and isinstance(x.ctx, ast.Load) and 'PIXEL_CACHE' in unparse(x))
+                        if isinstance(x, ast.Subscript) and isinstance(x.ctx, ast.Load))
         arms = (use[0].body, use[0].orelse) if hit_first else (use[0].orelse, use[0].body)
 
         class _U(object):
@@ -339,12 +452,29 @@ def rule_c(ctx, ix, f):
                       'membership were requested: a mask request that falls outside the source gets NaN (truthy) instead of "not '
                       'selected", and the result bypasses the cache bookkeeping' % norm(r.value), where=where(f, r))
     vals = {}
+    swapped = False
+    none_ = cond.T('is|None|subset_state')
     for st in ast.walk(f.node):
         if isinstance(st, ast.Assign) and unparse(st.targets[0]) == 'invalid_value':
-            vals.setdefault(unparse(st.value), 0)
-            vals[unparse(st.value)] += 1
-    ctx.ob(R, f.construct + ' invalid value', 'values get NaN and masks get False outside the source', set(vals) == {'np.nan', 'False'},
-           detail='invalid_value is assigned %s' % sorted(vals), where=f.where)
+            base = cond.path_condition(f.node, st, expand=False) or ('const', True)
+            arms = [(st.value, base)]
+            if isinstance(st.value, ast.IfExp):      # one conditional expression instead of two assignments
+                t_ = cond.formula(st.value.test)
+                arms = [(st.value.body, cond.And(base, t_)), (st.value.orelse, cond.And(base, cond.Not(t_)))]
+            for v_, pc_ in arms:
+                vals.setdefault(unparse(v_), 0)
+                vals[unparse(v_)] += 1
+                try:
+                    # the wrong way round: NaN chosen for a mask request / False for a value request
+                    if unparse(v_) == 'np.nan' and pc_ != ('const', True) and cond.implies(pc_, cond.Not(none_)):
+                        swapped = True
+                    if unparse(v_) == 'False' and pc_ != ('const', True) and cond.implies(pc_, none_):
+                        swapped = True
+                except ValueError:
+                    pass
+    ctx.ob(R, f.construct + ' invalid value', 'values get NaN and masks get False outside the source',
+           set(vals) == {'np.nan', 'False'} and not swapped,
+           detail='invalid_value is assigned %s%s' % (sorted(vals), ' (the wrong way round)' if swapped else ''), where=f.where)
 
 
 def rule_d(ctx, ix):
